@@ -73,7 +73,9 @@ def program(disp_faults: bool = True, body_raises: bool = True, max_leaves: int 
     spawn = st.builds(lambda v, b: {"k": "spawn", "via": v, "body": b}, st.sampled_from(["ctx", "ctx", "ctx", "asyncio"]), task_body(1))
     raise_ = st.builds(lambda e: {"k": "raise", "exc": e}, st.sampled_from(["Exception", "ExcSubclass", "BaseExc", "FalsyExc", "GenExit", "OwnCancelled"]))
     leaf_ops = st.one_of(probe, sleep, spawn, spawn, st.just({"k": "yield"}))
-    disp = fault_disp() if disp_faults else P.simple_disp_strategy()
+    # (without faults:) disposables that always succeed, some of which start a background task of their own while entering
+    spawning = st.builds(lambda d, g: {**d, "enter": {**d["enter"], "spawn": g}}, P.simple_disp_strategy(), st.integers(0, 3))
+    disp = fault_disp() if disp_faults else st.one_of(P.simple_disp_strategy(), P.simple_disp_strategy(), spawning)
 
     def blocks(children):
         body = st.builds(
@@ -115,6 +117,29 @@ def program(disp_faults: bool = True, body_raises: bool = True, max_leaves: int 
     return st.builds(lambda p, o, r, q: {"body": [*p, o, {"k": "probe", "lookups": [], "fp": True}, *q], "releases": r}, pre, outer, releases, post)
 
 
+def resource_program():
+    """a scope whose disposable is a resource that the body's spawned task uses until the resource is closed: the task ends
+    when the disposable is exited (nobody else releases it) - leaving the block terminates because disposables are exited
+    before the block waits for its tasks"""
+    end = st.sampled_from([None, None, {"k": "raise", "exc": "Exception"}])
+    return st.builds(
+        lambda n_tasks, pause, e, twice: {
+            "body": [
+                {"k": "scope", "mode": "async", "name": "root", "state": [{"type": "A", "v": 1}], "disp": None, "disp_obj": False, "body": [
+                    {"k": "scope", "mode": "async", "name": "s", "state": [], "disp_obj": False,
+                     "disp": [{"enter": {"b": "ok"}, "yields": None, "exit": {"b": "ok", "release": 9}, "as": "list"},
+                              *([{"enter": {"b": "ok"}, "yields": None, "exit": {"b": "suspend_ok", "t": 0.25}, "as": "list"}] if twice else [])],
+                     "body": [*[{"k": "spawn", "via": "ctx", "body": [{"k": "wait", "gate": 9}]} for _ in range(n_tasks)], *([{"k": "yield"}] * pause), *([e] if e else [])]},
+                    {"k": "probe", "lookups": [], "fp": True},
+                ]},
+                {"k": "probe", "lookups": [], "fp": True},
+            ],
+            "releases": [],
+        },
+        st.integers(1, 2), st.integers(0, 2), end, st.booleans(),
+    )  # fmt: skip
+
+
 def all_gates(ops, acc=None):
     acc = set() if acc is None else acc
     for _, op in P.walk_blocks(ops):
@@ -134,6 +159,11 @@ def release_plan(prog, complete: bool):
     rel = [(t, g) for t, g in prog.get("releases", [])]
     if complete:
         have = {g for _, g in rel}
+        # a gate that a disposable releases when it is exited is released by nobody else
+        for _, op in P.walk_blocks(prog["body"]):
+            for d in op.get("disp") or []:
+                if d["exit"].get("release") is not None:
+                    have.add(d["exit"]["release"])
         for g in sorted(all_gates(prog["body"]) - have):
             rel.append((8.0, g))
     return rel
